@@ -756,6 +756,86 @@ Example ex_internal_level :
   svc_bbox f8_layer = Some (0, 0, 10000, 7000).
 Proof. repeat split; vm_compute; reflexivity. Qed.
 
+(* ---- request isolation: for every number of requests and every schedule of parse / handle events, a request that is
+   handled after it was parsed is answered exactly as if it were alone - whatever was parsed or handled in between *)
+Section Isolation.
+Variable t : layer_table.
+Variable srv : origin_req.
+Variable reqs : nat -> treq.
+
+Definition dims_inv (st : rstate) : Prop :=
+  cls_dims st = None /\ forall i d, assoc_nat i (inst_dims st) = Some d -> d = rq_spec (reqs i).
+
+Lemma rstep_inv st e : dims_inv st -> dims_inv (rstep t srv reqs st e).
+Proof.
+  intros [Hc Hi]. destruct e as [i|i]; cbn [rstep]; split; cbn [cls_dims inst_dims]; try assumption.
+  intros k d. cbn [assoc_nat]. destruct (Nat.eqb i k) eqn:E.
+  - apply Nat.eqb_eq in E. subst k. intros H. inversion H. reflexivity.
+  - apply Hi.
+Qed.
+
+Lemma run_inv sched : forall st, dims_inv st -> dims_inv (fold_left (rstep t srv reqs) sched st).
+Proof. induction sched as [|e r IH]; intros st H; cbn [fold_left]; [exact H|]. apply IH. apply rstep_inv. exact H. Qed.
+
+Definition parsed (st : rstate) (i : nat) : Prop := assoc_nat i (inst_dims st) <> None.
+
+Lemma rstep_parsed st e i : parsed st i -> parsed (rstep t srv reqs st e) i.
+Proof.
+  unfold parsed. destruct e as [k|k]; cbn [rstep inst_dims assoc_nat]; [|tauto].
+  destruct (Nat.eqb k i); [discriminate|tauto].
+Qed.
+
+Lemma handle_isolated st i :
+  dims_inv st -> parsed st i ->
+  answer_of (rstep t srv reqs st (RHandle i)) i = Some (handle_with t srv (reqs i) (rq_spec (reqs i))).
+Proof.
+  intros [Hc Hi] Hp. unfold answer_of. cbn [rstep answers assoc_nat]. rewrite Nat.eqb_refl.
+  unfold dims_of. unfold parsed in Hp. destruct (assoc_nat i (inst_dims st)) as [d|] eqn:E; [|contradiction].
+  rewrite (Hi i d E). reflexivity.
+Qed.
+
+(* later events do not change the answer that was given, unless the request is handled again *)
+Lemma answer_stable st e i a :
+  answer_of st i = Some a -> e <> RHandle i -> answer_of (rstep t srv reqs st e) i = Some a.
+Proof.
+  unfold answer_of. destruct e as [k|k]; cbn [rstep answers]; [tauto|]. intros H Hne. cbn [assoc_nat].
+  destruct (Nat.eqb k i) eqn:E; [apply Nat.eqb_eq in E; subst; contradiction|exact H].
+Qed.
+
+Theorem request_isolation_l pre post i :
+  In (RParse i) pre ->
+  ~ In (RHandle i) post ->
+  answer_of (run_schedule t srv reqs (pre ++ RHandle i :: post)) i =
+  Some (handle_with t srv (reqs i) (rq_spec (reqs i))).
+Proof.
+  intros Hin Hpost. unfold run_schedule. rewrite fold_left_app. cbn [fold_left].
+  set (st := fold_left (rstep t srv reqs) pre rs_init).
+  assert (Hinv : dims_inv st).
+  { apply run_inv. split; [reflexivity|]. intros k d H. discriminate. }
+  assert (Hp : parsed st i).
+  { unfold st. clear Hinv st Hpost. generalize rs_init. induction pre as [|e r IH]; [destruct Hin|]. intros s0.
+    cbn [fold_left]. destruct Hin as [->|Hin].
+    - assert (P : parsed (rstep t srv reqs s0 (RParse i)) i).
+      { unfold parsed. cbn [rstep inst_dims assoc_nat]. rewrite Nat.eqb_refl. discriminate. }
+      revert P. generalize (rstep t srv reqs s0 (RParse i)). clear. induction r as [|e r IH]; intros s P; [exact P|].
+      cbn [fold_left]. apply IH. apply rstep_parsed. exact P.
+    - apply IH. exact Hin. }
+  pose proof (handle_isolated st i Hinv Hp) as Ha.
+  revert Ha. generalize (rstep t srv reqs st (RHandle i)). clear -Hpost.
+  induction post as [|e r IH]; intros s Ha; [exact Ha|]. cbn [fold_left]. apply IH.
+  - intros H. apply Hpost. right. exact H.
+  - apply answer_stable; [exact Ha|]. intros ->. apply Hpost. left. reflexivity.
+Qed.
+End Isolation.
+
+(* non-vacuity: two layers, B (other grid path element) is parsed between the parsing and the handling of A *)
+Example ex_request_isolation :
+  let t := [(1, 3857, f8_layer); (2, 4326, ex_geod_layer)] in
+  let reqs := fun i : nat => match i with O => mkReq false 1 (Some 3857) (ATms 0 0 0) | _ => mkReq false 2 None (ATiles ONone 1 1 0) end in
+  let st := run_schedule t ONone reqs [RParse 0; RParse 1; RHandle 0; RHandle 1]%nat in
+  answer_of st 0%nat = Some (Some (0, 1, 0)) /\ answer_of st 1%nat = Some (Some (1, 0, 1)).
+Proof. split; vm_compute; reflexivity. Qed.
+
 (* ---- content of the served tile (composition with the meta tile model of C04, imported read-only) *)
 From MP Require Import MetaGrid MetaGrid_proofs.
 (* ---- content: the image stored for the tile of an address, cut out of its meta tile (MetaGrid.v: meta tile bbox,
